@@ -165,8 +165,26 @@ func Load(cfg Config) (*Prog, error) {
 	p.SSA = prog
 	p.Fns = ssautil.AllFunctions(prog)
 	p.CG = vta.CallGraph(p.Fns, cha.CallGraph(prog))
+	// The program is built with ssa.InstantiateGenerics: every use of a generic function from non-generic code is a
+	// call of (or a reference to) an *instance* — a function of its own with a body over concrete types. The body of the
+	// generic origin (over type parameters) is then never executed; analysing it as a function would only produce
+	// "code" nobody calls (a channel made in it has no sender anywhere). It is left out once an instance exists; a generic
+	// function nobody instantiates inside the module stays and is analysed in its generic form.
+	instantiated := map[*ssa.Function]bool{}
+	for f := range p.Fns {
+		if IsInstance(f) {
+			instantiated[f.Origin()] = true
+		}
+	}
 	for f := range p.Fns {
 		if p.InRepo(f) {
+			top := f
+			for top.Parent() != nil {
+				top = top.Parent()
+			}
+			if instantiated[top] {
+				continue
+			}
 			p.RepoFns = append(p.RepoFns, f)
 		}
 	}
